@@ -14,7 +14,7 @@ import math
 import os
 import random
 
-from vh.core import MachineryError, guarded, guarded_timeout, Raised
+from vh.core import MachineryError, guarded, guarded_timeout, Raised, other_surroundings
 
 
 def cls_stat(x):
@@ -136,8 +136,19 @@ def run(chk, replay=None):
     traces, metas = [], []
 
     def roundtrip(r_obj, origin):
-        w = guarded(csep.write_json, r_obj, path)
-        back = guarded(csep.load_evaluation_result, path) if not isinstance(w, Raised) else w
+        how = len(traces) % 5
+        if how == 3:
+            # written and read by a program that changed its process-wide settings and names the file relative to its working directory
+            with other_surroundings(cwd=os.path.dirname(path)):
+                w = guarded(csep.write_json, r_obj, os.path.basename(path))
+                back = guarded(csep.load_evaluation_result, os.path.basename(path)) if not isinstance(w, Raised) else w
+        elif how == 4:
+            import pathlib
+            w = guarded(csep.write_json, r_obj, pathlib.Path(path))
+            back = guarded(csep.load_evaluation_result, pathlib.Path(path)) if not isinstance(w, Raised) else w
+        else:
+            w = guarded(csep.write_json, r_obj, path)
+            back = guarded(csep.load_evaluation_result, path) if not isinstance(w, Raised) else w
         chk.count()
         p0 = project(r_obj)
         if isinstance(back, Raised):
